@@ -115,25 +115,26 @@ func calledFromCleaner() bool {
 
 type loopInst struct {
 	implInst
-	fs          *loopStore
-	r           *receiver.Receiver
-	cancel      context.CancelFunc
-	ctx         context.Context
-	started     bool
-	exited      bool
-	exitStr     string
-	yieldCh     chan string
-	releaseCh   chan struct{}
-	exitCh      chan error
-	at          string
-	delivery    string // observed in the current segment: "inst@symts"
-	ownAtStart  bool   // snapshots under this instance's own name existed when the loop started
-	cfgArgs     []string
-	bgListed    bool
-	lsTxnID     uint64               // id Lightning Stream's latest own transaction was opened with
-	echo        bool                 // a Store without a preceding application change or start-up (C10)
-	earlyUpload bool                 // a Store while the own newest snapshot found at start-up is not merged yet (C05)
-	startNewest map[string]time.Time // newest snapshot per other instance when the loop started (C16 run-once)
+	fs           *loopStore
+	r            *receiver.Receiver
+	cancel       context.CancelFunc
+	ctx          context.Context
+	started      bool
+	exited       bool
+	exitStr      string
+	yieldCh      chan string
+	releaseCh    chan struct{}
+	exitCh       chan error
+	at           string
+	delivery     string // observed in the current segment: "inst@symts"
+	ownAtStart   bool   // snapshots under this instance's own name existed when the loop started
+	cfgArgs      []string
+	bgListed     bool
+	lsTxnID      uint64               // id Lightning Stream's latest own transaction was opened with
+	echo         bool                 // a Store without a preceding application change or start-up (C10)
+	earlyUpload  bool                 // a Store while the own newest snapshot found at start-up is not merged yet (C05)
+	phantomStore bool                 // SendOnce went on as if stored although no Store call succeeded (C09, C12, C05)
+	startNewest  map[string]time.Time // newest snapshot per other instance when the loop started (C16 run-once)
 }
 
 var (
@@ -500,7 +501,9 @@ func init() {
 		}
 		l.fs.mu.Lock()
 		l.fs.failStores = int(u64(a[2]))
+		storesBefore := l.fs.stores
 		l.fs.mu.Unlock()
+		wasSending := l.at == "send.afterTxn"
 		l.delivery = ""
 		t := trackOf(l.id)
 		if l.at == "loop.beforeInfo" {
@@ -594,6 +597,14 @@ func init() {
 			// the dump is done: application commits from here on are not in this snapshot
 			t.coveredBySend = t.appSinceStore
 			t.appSinceStore = false
+		}
+		if l.at == "send.stored" && wasSending {
+			l.fs.mu.Lock()
+			stored := l.fs.stores > storesBefore
+			l.fs.mu.Unlock()
+			if !stored && !l.cfgRO() {
+				l.phantomStore = true
+			}
 		}
 		if l.at == "send.stored" {
 			if waitingForOwn(l) {
